@@ -139,6 +139,8 @@ func init() {
 		vRunSrc(extra[0], extra[1:])
 	case "c06":
 		vC06(seed, count, extra)
+	case "c02graph":
+		vC02Graph(seed, count, extra)
 	case "c06block":
 		vC06Block(seed, count, extra)
 	case "tsrc":
